@@ -111,6 +111,8 @@ def _spill_edge_rule(ctx):
                 _, outs = backend.fold(ctx, key, [rv])
                 n += 1
                 got = outs[0].result if len(outs) == 1 else None
+                if got is not None and not isinstance(got, bool):
+                    raise AnalysisError("R-CYCLE: contains_spill_edge of %s could not be folded on a concrete tree (%r): the analysis cannot follow this code" % (b, got))
                 want = _has_spill_edge(rootlab == "S", rootlab == "S", forest)
                 if got is not want:
                     # returning true without a spill edge is harmless (slower parking), false with one is the defect
@@ -258,7 +260,10 @@ def rule_subst_order(ctx):
                                (same_map, "the two phases do not use the one transpose(..) map"),
                                (oldctx, "reference counts are updated with a context other than the old one")) if not c), fn.file, fn.line)
     # update_reference_count folded
-    ukey = [k for k in fx.fns if k.endswith("code_weakening_contraction::update_reference_count")]
+    # the function that turns a target count into erase / nothing / share: the one of axcut2backend that calls both erase_block and
+    # share_block_n (code_weakening_contraction::update_reference_count on the pinned tree)
+    ukey = [k for k, g in fx.fns.items() if g["crate"] == "axcut2backend" and "{closure" not in k and
+            {"erase_block", "share_block_n"} <= {b_["term"].get("callee_name") for b_ in g["blocks"] if b_["term"]["k"] == "call"}]
     if len(ukey) != 1:
         raise AnalysisError("update_reference_count not found")
     f = fx.fns[ukey[0]]
